@@ -83,13 +83,11 @@ class EnumRng:
     """One path of a depth-first enumeration of every random choice; the weight of the path is
     the product of the probabilities the code itself handed to the generator."""
 
-    def __init__(self, path, p_keep=None, threshold_box=None):
+    def __init__(self, path):
         self.path = path
         self.pos = 0
         self.weight = 1.0
         self.arity = []
-        self.p_keep = p_keep
-        self.threshold_box = threshold_box
 
     def __deepcopy__(self, memo):
         return self
@@ -119,24 +117,61 @@ class EnumRng:
         return np.array([self._one(a, p) for _ in range(int(size))])
 
     def uniform(self, *a, **k):
-        # reject_condition: rng.uniform() > transmission probability
-        i = self._branch([self.p_keep, 1.0 - self.p_keep])
-        return 0.0 if i == 0 else 1.0
+        return LazyUniform(self)
 
     def random(self, *a, **k):
-        # rng.random() > p, p captured from the function that computed it
-        p = self.threshold_box[0]
-        i = self._branch([p, 1.0 - p])
-        return 0.0 if i == 0 else 1.0
+        return LazyUniform(self)
 
 
-def enumerate_law(run_once, p_keep=None, threshold_box=None, limit=12000):
+class LazyUniform:
+    """A uniform number on [0,1) whose value is decided only by the comparisons the code makes
+    with it: every comparison with a number c is a branch of the enumeration with the
+    conditional probability of `T < c` given the earlier answers.  Covers `rng.uniform() > p`
+    (loss), `rng.random() > p` (greedy post-selection), `guess < conditional` (threshold
+    sampler) and `cumulative >= threshold` (inverse-CDF marginal sampler) without telling
+    the harness any of the thresholds."""
+
+    __array_ufunc__ = None
+
+    def __init__(self, rng):
+        self.rng = rng
+        self.lo = 0.0
+        self.hi = 1.0
+
+    def _below(self, c):
+        c = float(c)
+        if c <= self.lo:
+            return False
+        if c >= self.hi:
+            return True
+        p = (c - self.lo) / (self.hi - self.lo)
+        i = self.rng._branch([p, 1.0 - p])
+        if i == 0:
+            self.hi = c
+            return True
+        self.lo = c
+        return False
+
+    def __lt__(self, c):
+        return self._below(c)
+
+    def __le__(self, c):
+        return self._below(c)
+
+    def __gt__(self, c):
+        return not self._below(c)
+
+    def __ge__(self, c):
+        return not self._below(c)
+
+
+def enumerate_law(run_once, limit=12000):
     """run_once(rng) -> hashable outcome.  Returns {outcome: probability}, number of leaves."""
     law = {}
     path = []
     leaves = 0
     while True:
-        rng = EnumRng(path, p_keep, threshold_box)
+        rng = EnumRng(path)
         try:
             out = run_once(rng)
             law[out] = law.get(out, 0.0) + rng.weight
@@ -328,10 +363,15 @@ def passive_program(case, with_measurement=True, with_postselect=True):
         if with_postselect and case.get("ps_modes"):
             pq.Q(*case["ps_modes"]) | pq.PostSelectPhotons(photon_counts=tuple(case["ps_photons"]))
         if with_measurement:
-            if case.get("measure") is not None:
-                pq.Q(*case["measure"]) | pq.ParticleNumberMeasurement()
+            if case.get("detector") is not None:
+                meas = pq.ImperfectParticleNumberMeasurement(
+                    detector_efficiency_matrix=np.array(case["detector"], dtype=float))
             else:
-                pq.Q(all) | pq.ParticleNumberMeasurement()
+                meas = pq.ParticleNumberMeasurement()
+            if case.get("measure") is not None:
+                pq.Q(*case["measure"]) | meas
+            else:
+                pq.Q(all) | meas
     return prog
 
 
@@ -350,44 +390,130 @@ def run_law(case):
         res["reference"] = [[[int(x) for x in k], float(v)] for k, v in ref.items() if abs(v) > 1e-15]
     except Exception as e:  # noqa: BLE001
         res["reference_error"] = type(e).__name__ + ": " + str(e)[:200]
-    box = [1.0]
-    real_calc = S._calculate_dist_postselection_probability
-
-    def calc(*a, **k):
-        v = real_calc(*a, **k)
-        box[0] = float(v)
-        return v
-
-    # transmission probability of the uniform-loss branch (Loss with equal values on every
-    # mode is uniform loss as well)
-    p_keep = None if case.get("eta") is None else float(case["eta"]) ** 2
-    if p_keep is None and case.get("loss") is not None and len(set(case["loss"])) == 1:
-        p_keep = float(case["loss"][0]) ** 2
-
-    def run_once(rng):
-        np.random.default_rng = lambda *a, **k: rng
-        S._calculate_dist_postselection_probability = calc
+    if case.get("detector") is not None:
+        # the exact branch weights of the same program (shots=None)
         try:
-            sim2 = pq.PassiveSimulator(d=d, config=cfg.copy())
-            sim2.config.rng = rng
+            r = pq.PassiveSimulator(d=d, config=cfg.copy()).execute(passive_program(case), shots=None)
+            acc = {}
+            for b in r.branches:   # several branches (different post-measurement states) may share an outcome
+                k = tuple(int(x) for x in b.outcome)
+                acc[k] = acc.get(k, 0.0) + float(b.frequency)
+            res["exact_branches"] = [[list(k), v] for k, v in acc.items()]
+        except Exception as e:  # noqa: BLE001
+            res["exact_branches_error"] = type(e).__name__ + ": " + str(e)[:200]
+
+    def make_run(shots):
+        def run_once(rng):
+            np.random.default_rng = lambda *a, **k: rng
             try:
-                # a fresh program every time: an execution that raises leaves the
-                # instructions' modes remapped
-                r = sim2.execute(passive_program(case), shots=1)
-            except InvalidSimulation:
-                return "rejected"
-            return tuple(int(x) for x in r.samples[0])
-        finally:
-            np.random.default_rng = REAL_DEFAULT_RNG
-            S._calculate_dist_postselection_probability = real_calc
+                sim2 = pq.PassiveSimulator(d=d, config=cfg.copy())
+                sim2.config.rng = rng
+                try:
+                    # a fresh program every time: an execution that raises may leave the
+                    # instructions' modes remapped
+                    r = sim2.execute(passive_program(case), shots=shots)
+                except InvalidSimulation:
+                    return "rejected"
+                smp = [tuple(int(x) for x in s_) for s_ in r.samples]
+                return smp[0] if shots == 1 else tuple(sorted(smp))
+            finally:
+                np.random.default_rng = REAL_DEFAULT_RNG
+        return run_once
 
     try:
-        law, leaves = enumerate_law(run_once, p_keep, box)
+        law, leaves = enumerate_law(make_run(1))
         res["law"] = [[("rejected" if k == "rejected" else list(k)), v] for k, v in law.items()]
         res["leaves"] = leaves
+        shots = case.get("shots", 1)
+        if shots > 1 and leaves ** shots <= case.get("max_joint_leaves", 4000):
+            law2, leaves2 = enumerate_law(make_run(shots), limit=case.get("max_joint_leaves", 4000) * 2)
+            res["law_multi"] = [[("rejected" if k == "rejected" else [list(x) for x in k]), v] for k, v in law2.items()]
+            res["leaves"] += leaves2
+            res["shots"] = shots
     except Exception as e:  # noqa: BLE001
         res["law_error"] = type(e).__name__ + ": " + str(e)[:300]
     res["seconds"] = round(time.time() - t0, 2)
+    return res
+
+
+# ----------------------------------------------------------------------------- imperfect detection
+def run_imperfect(case):
+    from piquasso._simulators import simulation_steps as IS
+    P = np.array(case["detector"], dtype=float)
+    actual = tuple(case["actual"])
+    mult = case["multiplicity"]
+    res = {"id": case["id"]}
+    try:
+        exact = IS._get_detected_outcome_probabilities(actual, P)
+        res["exact"] = [[list(k), v.numerator, v.denominator] for k, v in exact.items()]
+    except Exception as e:  # noqa: BLE001
+        res["exact_error"] = type(e).__name__
+    rng = ScriptRng(case["draws"])
+    try:
+        got = IS._sample_detected_outcomes(actual, mult, P, rng)
+        res["scripted"] = [[list(k), int(v)] for k, v in got.items()]
+        res["calls"] = [[c[1], c[2], c[3]] for c in rng.calls]
+    except Exception as e:  # noqa: BLE001
+        res["scripted_error"] = type(e).__name__ + ": " + str(e)[:200]
+
+    def run_once(rng2):
+        got2 = IS._sample_detected_outcomes(actual, mult, P, rng2)
+        return tuple(sorted((tuple(k), int(v)) for k, v in got2.items()))
+
+    try:
+        law, leaves = enumerate_law(run_once, limit=20000)
+        res["law"] = [[[[list(k), v] for k, v in key], pr] for key, pr in law.items()]
+        res["leaves"] = leaves
+    except Exception as e:  # noqa: BLE001
+        res["law_error"] = type(e).__name__ + ": " + str(e)[:200]
+    return res
+
+
+# ----------------------------------------------------------------------------- two measurements in a row
+class MultiRecorder:
+    def __init__(self):
+        self.calls = []
+
+    def __deepcopy__(self, memo):
+        return self
+
+    def multivariate_normal(self, mean, cov, size=None, **k):
+        mean = np.array(mean, dtype=float)
+        n = 1 if size is None else int(size)
+        out = np.array([mean + 0.25 * (i + 1) * (1 + np.arange(len(mean))) for i in range(n)])
+        self.calls.append({"mean": fl(mean), "cov": fl(cov), "dim": int(len(mean)), "returned": fl(out[0])})
+        return out
+
+
+def dyne_instruction(spec):
+    if spec["kind"] == "generaldyne":
+        return pq.GeneraldyneMeasurement(np.array(spec["sm"], dtype=float))
+    if spec["kind"] == "heterodyne":
+        return pq.HeterodyneMeasurement()
+    return pq.HomodyneMeasurement(phi=spec["phi"], z=spec["z"])
+
+
+def run_dyne2(case):
+    d = case["d"]
+    cfg = pq.Config(hbar=case["hbar"], seed_sequence=1)
+    sim = pq.GaussianSimulator(d=d, config=cfg)
+    state = sim.create_initial_state()
+    state.xpxp_covariance_matrix = np.array(case["sigma"], dtype=float)
+    state.xpxp_mean_vector = np.array(case["mu"], dtype=float)
+    with pq.Program() as prog:
+        for spec in case["steps"]:
+            pq.Q(*spec["modes"]) | dyne_instruction(spec)
+    rec = MultiRecorder()
+    sim.config.rng = rec
+    state._config.rng = rec
+    res = {"id": case["id"]}
+    try:
+        r = sim.execute(prog, shots=1, initial_state=state)
+        res["calls"] = rec.calls
+        res["sample"] = fl(r.samples[0])
+    except Exception as e:  # noqa: BLE001
+        res["error"] = type(e).__name__ + ": " + str(e)[:300]
+        res["calls"] = rec.calls
     return res
 
 
@@ -412,6 +538,10 @@ def main():
     lap("dyne")
     out["law"] = [run_law(c) for c in req.get("law", [])]
     lap("law")
+    out["imperfect"] = [run_imperfect(c) for c in req.get("imperfect", [])]
+    lap("imperfect")
+    out["dyne2"] = [run_dyne2(c) for c in req.get("dyne2", [])]
+    lap("dyne2")
     print(json.dumps(out))
 
 
